@@ -1685,3 +1685,211 @@ Proof.
   apply andb_prop in F3. destruct F3 as [F3 F4]. apply Nat.leb_le in F3. apply Bool.eqb_prop in F4.
   repeat split; auto. exists cs. repeat split; auto.
 Qed.
+
+(* ------------------------------------------------------------------------------------------ *)
+(** * Whole GRwriteimage / GRreadimage / chunk access: interlace conversion + number conversion + region engine
+      refine the raster specification (s_write / s_read) for all regions, strides and interlaces *)
+
+Lemma map_repeat' : forall {A B} (g : A -> B) x n, map g (repeat x n) = repeat (g x) n.
+Proof. intros. induction n; simpl; auto. f_equal. auto. Qed.
+
+Lemma nth_repeat_lt : forall {A} (a d : A) m n, n < m -> nth n (repeat a m) d = a.
+Proof. intros A a d m. induction m; intros n H; [lia|]. destruct n; simpl; auto. apply IHm. lia. Qed.
+
+Lemma concat_uniform_length : forall {T} (l : list (list T)) nc,
+    (forall x, In x l -> length x = nc) -> length (concat l) = length l * nc.
+Proof.
+  intros T l nc. induction l; intros H; simpl; auto. rewrite app_length, IHl.
+  - rewrite (H a) by (left; auto). reflexivity.
+  - intros. apply H. right; auto.
+Qed.
+
+Lemma nth_concat_uniform : forall {T} (l : list (list T)) nc k c d,
+    (forall x, In x l -> length x = nc) -> k < length l -> c < nc ->
+    nth (k * nc + c) (concat l) d = nth c (nth k l []) d.
+Proof.
+  intros T l nc. induction l as [|a l IH]; intros k c d H Hk Hc; [simpl in Hk; lia|].
+  assert (Ha : length a = nc) by (apply H; left; auto).
+  destruct k; simpl.
+  - apply app_nth1. lia.
+  - rewrite app_nth2 by lia. replace (nc + k * nc + c - length a) with (k * nc + c) by lia.
+    apply IH; auto; [intros; apply H; right; auto | simpl in Hk; lia].
+Qed.
+
+Lemma il_spec_same : forall {A} (d : A) a X Y nc cs (src : list A),
+    1 <= cs -> length src = X * Y * nc * cs -> il_convert_spec d a a X Y nc cs src = src.
+Proof.
+  intros A d a X Y nc cs src Hcs Hl. apply (nth_ext _ _ d d).
+  - unfold il_convert_spec. rewrite map_length, seq_length. auto.
+  - unfold il_convert_spec at 1. rewrite map_length, seq_length. intros q Hq.
+    unfold il_convert_spec. rewrite nth_map_seq by auto.
+    assert (Hk : q / cs < X * Y * nc) by (apply Nat.div_lt_upper_bound; nia).
+    pose proof (il_index_decode_lemma a X Y nc (q / cs) Hk) as Hdec.
+    destruct (il_decode a X Y nc (q / cs)) as [[y x] c]. destruct Hdec as (_ & _ & _ & E).
+    rewrite E. f_equal. symmetry. apply Nat.div_mod. lia.
+Qed.
+
+Lemma px_index_lt : forall cx cy y x, y < cy -> x < cx -> y * cx + x < cx * cy.
+Proof. intros. assert (y * cx + x + 1 <= cy * cx) by nia. lia. Qed.
+Lemma comp_index_lt : forall cx cy nc y x c, y < cy -> x < cx -> c < nc -> (y * cx + x) * nc + c < cx * cy * nc.
+Proof. intros. exact (il_index_lt_lemma ILpixel cx cy nc y x c H H0 H1). Qed.
+
+Section Compose.
+  Context {C D : Type}.
+  Variables (enc : C -> D) (dec : D -> C) (d0 : C).
+  Hypothesis dec_enc : forall c, dec (enc c) = c.
+
+  (** the pixel-interlaced buffer GRwriteimage / GRwritechunk build from the caller's buffer *)
+  Definition pixbuf_of (wil : ilace) (cx cy nc : nat) (user : list C) : list C :=
+    if il_eqb wil ILpixel then user
+    else il_convert_walk wil ILpixel cx cy nc 1 user (repeat d0 (length user)).
+
+  Lemma pixbuf_nth : forall wil cx cy nc user k c,
+      1 <= nc -> length user = cx * cy * nc -> k < cx * cy -> c < nc ->
+      nth (k * nc + c) (pixbuf_of wil cx cy nc user) d0 = nth (il_index wil cx cy nc (k / cx) (k mod cx) c) user d0.
+  Proof.
+    intros wil cx cy nc user k c Hnc Hl Hk Hc. unfold pixbuf_of.
+    assert (Hcx : cx <> 0) by (intro; subst; simpl in Hk; lia).
+    assert (Hy : k / cx < cy) by (apply Nat.div_lt_upper_bound; auto; lia).
+    assert (Hx : k mod cx < cx) by (apply Nat.mod_upper_bound; auto).
+    assert (Ek : il_index ILpixel cx cy nc (k / cx) (k mod cx) c = k * nc + c).
+    { simpl. pose proof (Nat.div_mod k cx Hcx). nia. }
+    destruct (il_eqb wil ILpixel) eqn:E.
+    - apply il_eqb_eq in E. subst wil. rewrite Ek. reflexivity.
+    - rewrite (il_convert_correct_lemma d0) by (rewrite ?repeat_length; lia).
+      unfold il_convert_spec. rewrite nth_map_seq by nia.
+      rewrite Nat.div_1_r.
+      replace (il_decode ILpixel cx cy nc (k * nc + c)) with (k / cx, k mod cx, c)
+        by (rewrite <- Ek; symmetry; apply il_decode_index_lemma; auto).
+      cbv beta iota. rewrite Nat.mod_1_r, Nat.add_0_r, Nat.mul_1_l. reflexivity.
+  Qed.
+
+  Lemma chunk_px_codec : forall nc n (buf : list C),
+      map (map dec) (chunk_px (enc d0) nc n (map enc buf)) = chunk_px d0 nc n buf.
+  Proof.
+    intros. unfold chunk_px. rewrite map_map. apply map_ext. intros k. rewrite map_map. apply map_ext. intros c.
+    rewrite map_nth. apply dec_enc.
+  Qed.
+
+  Lemma write_pixels_lemma : forall wil cx cy nc user,
+      1 <= nc -> length user = cx * cy * nc ->
+      map (map dec) (chunk_px (enc d0) nc (cx * cy) (map enc (pixbuf_of wil cx cy nc user))) =
+      user_pixels d0 wil cx cy nc user.
+  Proof.
+    intros wil cx cy nc user Hnc Hl. rewrite chunk_px_codec. unfold chunk_px, user_pixels.
+    apply map_ext_in. intros k Hk. apply in_seq in Hk. apply map_ext_in. intros c Hc. apply in_seq in Hc.
+    apply pixbuf_nth; auto; lia.
+  Qed.
+
+  Lemma spec_write_map : forall {T U} (g : T -> U) (d : T) (e data : list T) xdim ydim r,
+      map g (spec_write_px d e xdim ydim r data) = spec_write_px (g d) (map g e) xdim ydim r (map g data).
+  Proof.
+    intros. unfold spec_write_px. rewrite map_map. apply map_ext. intros p.
+    destruct (in_lattice _ _ _ _); [destruct (in_lattice _ _ _ _)|]; rewrite map_nth; reflexivity.
+  Qed.
+
+  (** GRwriteimage as a whole refines s_write -- image with data ([e = Some l]) or new image ([None]: the
+      never-written pixels become the fill pixel) *)
+  Lemma image_write_refines_lemma : forall (e : option (list (list D))) xdim ydim nc wil r (fillpx user : list C),
+      1 <= nc -> rgn_inside xdim ydim r = true -> length user = r_cx r * r_cy r * nc ->
+      (forall l, e = Some l -> length l = xdim * ydim) ->
+      map (map dec) (m_write enc d0 e xdim ydim nc wil r fillpx user) =
+      s_write d0 (match e with Some l => map (map dec) l | None => repeat fillpx (xdim * ydim) end)
+              xdim ydim nc wil r user.
+  Proof.
+    intros e xdim ydim nc wil r fillpx user Hnc Hin Hl He. unfold m_write, s_write.
+    fold (pixbuf_of wil (r_cx r) (r_cy r) nc user).
+    set (data := chunk_px (enc d0) nc (r_cx r * r_cy r) (map enc (pixbuf_of wil (r_cx r) (r_cy r) nc user))).
+    assert (Hd : length data = r_cx r * r_cy r) by (subst data; unfold chunk_px; rewrite map_length, seq_length; auto).
+    rewrite <- (write_pixels_lemma wil (r_cx r) (r_cy r) nc user Hnc Hl). fold data.
+    destruct e as [l|].
+    - rewrite (region_write_refines_lemma [] l data xdim ydim r (map enc fillpx) (He l eq_refl) Hin Hd).
+      apply (spec_write_map (map dec) []).
+    - rewrite (first_write_fills_image_lemma [] (map enc fillpx) data xdim ydim r Hin Hd).
+      rewrite (spec_write_map (map dec) []). rewrite map_repeat'. rewrite map_map.
+      rewrite (map_ext _ (fun c => c)) by apply dec_enc. rewrite map_id. reflexivity.
+  Qed.
+
+  (** common shape of the read side: a pixel-interlaced memory buffer [mem] whose component (y, x, c) is [V y x c],
+      delivered in the requested interlace, is the closed-form reordering *)
+  Lemma read_layout_lemma : forall (V : nat -> nat -> nat -> C) ril cx cy nc (mem : list C),
+      1 <= nc -> length mem = cx * cy * nc ->
+      (forall y x c, y < cy -> x < cx -> c < nc -> nth ((y * cx + x) * nc + c) mem d0 = V y x c) ->
+      (if il_eqb ril ILpixel then mem else il_convert_walk ILpixel ril cx cy nc 1 mem (repeat d0 (length mem))) =
+      map (fun q => let '(i, j, c) := il_decode ril cx cy nc q in V i j c) (seq 0 (cx * cy * nc)).
+  Proof.
+    intros V ril cx cy nc mem Hnc Hl HV.
+    assert (E : (if il_eqb ril ILpixel then mem else il_convert_walk ILpixel ril cx cy nc 1 mem (repeat d0 (length mem)))
+                = il_convert_spec d0 ILpixel ril cx cy nc 1 mem).
+    { destruct (il_eqb ril ILpixel) eqn:E.
+      - apply il_eqb_eq in E. subst. symmetry. apply il_spec_same; lia.
+      - apply il_convert_correct_lemma; rewrite ?repeat_length; lia. }
+    rewrite E. unfold il_convert_spec. rewrite Nat.mul_1_r. apply map_ext_in. intros q Hq. apply in_seq in Hq.
+    rewrite Nat.div_1_r.
+    pose proof (il_index_decode_lemma ril cx cy nc q ltac:(lia)) as Hdec.
+    destruct (il_decode ril cx cy nc q) as [[y x] c]. destruct Hdec as (Hy & Hx & Hc & _).
+    rewrite Nat.mod_1_r, Nat.add_0_r, Nat.mul_1_l. simpl il_index. apply HV; auto.
+  Qed.
+
+  (** GRreadimage as a whole refines s_read *)
+  Lemma image_read_refines_lemma : forall (e : list (list D)) xdim ydim nc ril r,
+      1 <= nc -> rgn_inside xdim ydim r = true -> length e = xdim * ydim ->
+      (forall px, In px e -> length px = nc) ->
+      m_read dec d0 e xdim ydim nc ril r = s_read d0 (map (map dec) e) xdim nc ril r.
+  Proof.
+    intros e xdim ydim nc ril r Hnc Hin Hl Hpx. unfold m_read, s_read.
+    rewrite (region_read_refines_lemma [] e xdim ydim r Hl Hin).
+    pose proof (inside_facts _ _ _ Hin) as (Htx & Hty & Hcx & Hcy & Hx & Hy).
+    set (px := spec_read_px [] e xdim r).
+    assert (Hpl : length px = r_cx r * r_cy r) by (subst px; unfold spec_read_px; rewrite map_length, seq_length; auto).
+    assert (Hpn : forall y x, y < r_cy r -> x < r_cx r ->
+                              nth (y * r_cx r + x) px [] = nth ((r_sy r + y * r_ty r) * xdim + r_sx r + x * r_tx r) e []).
+    { intros y x Hy' Hx'. subst px. unfold spec_read_px. rewrite nth_map_seq by (apply px_index_lt; auto).
+      rewrite (div_of (r_cx r) y x) by lia. rewrite (mod_of (r_cx r) y x) by lia. reflexivity. }
+    assert (Hin_e : forall y x, y < r_cy r -> x < r_cx r ->
+                                In (nth ((r_sy r + y * r_ty r) * xdim + r_sx r + x * r_tx r) e []) e).
+    { intros y x Hy' Hx'. apply nth_In. rewrite Hl.
+      destruct (pixel_pos_bound xdim ydim r y x Hin Hy' Hx') as (A & _). lia. }
+    assert (Hu : forall x, In x px -> length x = nc).
+    { intros x Hx'. subst px. unfold spec_read_px in Hx'. apply in_map_iff in Hx'. destruct Hx' as [q [<- Hq]].
+      apply in_seq in Hq. assert (Hcxn : r_cx r <> 0) by lia.
+      apply Hpx. replace ((r_sy r + q / r_cx r * r_ty r) * xdim + r_sx r + q mod r_cx r * r_tx r)
+        with ((r_sy r + (q / r_cx r) * r_ty r) * xdim + r_sx r + (q mod r_cx r) * r_tx r) by reflexivity.
+      apply Hin_e; [apply Nat.div_lt_upper_bound; auto; lia | apply Nat.mod_upper_bound; auto]. }
+    rewrite (read_layout_lemma
+               (fun y x c => dec (nth c (nth ((r_sy r + y * r_ty r) * xdim + r_sx r + x * r_tx r) e []) (enc d0)))).
+    - apply map_ext_in. intros q Hq. apply in_seq in Hq.
+      pose proof (il_index_decode_lemma ril (r_cx r) (r_cy r) nc q ltac:(lia)) as Hdec.
+      destruct (il_decode ril (r_cx r) (r_cy r) nc q) as [[y x] c]. destruct Hdec as (Hy' & Hx' & Hc & _).
+      change (@nil C) with (map dec (@nil D)). rewrite map_nth.
+      rewrite (nth_indep _ d0 (dec (enc d0))) by (rewrite map_length, (Hpx _ (Hin_e y x Hy' Hx')); auto).
+      rewrite map_nth. reflexivity.
+    - auto.
+    - rewrite map_length, (concat_uniform_length px nc Hu), Hpl. reflexivity.
+    - intros y x c Hy' Hx' Hc.
+      rewrite (nth_indep _ d0 (dec (enc d0)))
+        by (rewrite map_length, (concat_uniform_length px nc Hu), Hpl; apply comp_index_lt; auto).
+      rewrite map_nth. rewrite nth_concat_uniform by (auto; rewrite Hpl; apply px_index_lt; auto).
+      rewrite Hpn by auto. reflexivity.
+  Qed.
+
+  (** GRreadimage of an image that has no data yet: every pixel is the fill pixel *)
+  Lemma read_nodata_refines_lemma : forall xdim ydim nc ril r (fillpx : list C),
+      1 <= nc -> rgn_inside xdim ydim r = true -> length fillpx = nc ->
+      m_read_nodata d0 nc ril r fillpx = s_read d0 (repeat fillpx (xdim * ydim)) xdim nc ril r.
+  Proof.
+    intros xdim ydim nc ril r fillpx Hnc Hin Hf. unfold m_read_nodata, s_read.
+    assert (Hu : forall x, In x (repeat fillpx (r_cx r * r_cy r)) -> length x = nc)
+      by (intros x Hx; apply repeat_spec in Hx; subst; auto).
+    rewrite (read_layout_lemma (fun _ _ c => nth c fillpx d0)).
+    - apply map_ext_in. intros q Hq. apply in_seq in Hq.
+      pose proof (il_index_decode_lemma ril (r_cx r) (r_cy r) nc q ltac:(lia)) as Hdec.
+      destruct (il_decode ril (r_cx r) (r_cy r) nc q) as [[y x] c]. destruct Hdec as (Hy' & Hx' & Hc & _).
+      destruct (pixel_pos_bound xdim ydim r y x Hin Hy' Hx') as (A & _).
+      rewrite nth_repeat_lt by lia. reflexivity.
+    - auto.
+    - rewrite (concat_uniform_length _ nc Hu), repeat_length. reflexivity.
+    - intros y x c Hy' Hx' Hc. rewrite nth_concat_uniform by (auto; rewrite repeat_length; apply px_index_lt; auto).
+      rewrite nth_repeat_lt by (apply px_index_lt; auto). reflexivity.
+  Qed.
+End Compose.
